@@ -117,6 +117,10 @@ func genuine(eased bool) *m.Address {
 // outsider returns a self-consistent identity (address = digest of its key material, computed with the
 // independent implementation) whose address is NOT in fd00::/8: only the prefix check can refuse it.
 func outsider(eased bool, rng *rand.Rand) *m.Address {
+	// one in three is not an IPv6 address at all: the IPv4 address 253.x.y.z made of the first four bytes of a
+	// digest that begins with fd (an address type that a stored form or a CBOR-encoded hop record can carry); one in
+	// three is the digest itself with an IPv6 zone attached
+	flavour := rng.Intn(3)
 	for {
 		seed := make([]byte, ed25519.SeedSize)
 		rng.Read(seed)
@@ -127,8 +131,22 @@ func outsider(eased bool, rng *rand.Rand) *m.Address {
 			easing = 1 + uint64(rng.Intn(500))
 		}
 		ip, _ := digestIP("BLAKE3", "Ed25519", pub, easing)
-		if ip.As16()[0] == 0xfd {
-			continue
+		b := ip.As16()
+		switch flavour {
+		case 1:
+			if b[0] != 0xfd {
+				continue
+			}
+			ip = netip.AddrFrom4([4]byte{b[0], b[1], b[2], b[3]})
+		case 2:
+			if b[0] != 0xfd || b[1]&0x80 != 0 || b[1]&0x70 == 0 {
+				continue
+			}
+			ip = ip.WithZone("eth0")
+		default:
+			if b[0] == 0xfd {
+				continue
+			}
 		}
 		return &m.Address{PublicAddress: m.PublicAddress{IP: ip, Hash: crop.BLAKE3, Type: crop.KeyPairTypeEd25519, PublicKey: pub, Easing: easing}, PrivateKey: priv}
 	}
